@@ -2,7 +2,7 @@ SPEC = {
     'id': 'C32',
     'harness': 'hC32',
     'coq_dir': 'C32',
-    'claimed': False,
+    'claimed': True,
     'theorems': [
         'C32_acked_contiguous_increasing', 'C32_acked_contiguous_increasing_holds',
         'C32_recorded_le_acked', 'C32_recorded_le_acked_holds',
